@@ -222,7 +222,13 @@ struct D
 		switch (w) {
 		case 14: {  // long / unsigned long: 64-bit on this platform, every value must come back (small ones as INT like int/unsigned)
 			static const long SB[] = {0L, -1L, 2147483647L, 2147483648L, -2147483648L, -2147483649L, 4294967296L, 5000000000L, -5000000000L, 9007199254740992L};
-			if (c.rng.chance(0.5)) {
+			if (c.rng.chance(0.25)) {   // ULong incl. values above the signed 64-bit range
+				static const ULong UB[] = {0ULL, 1ULL, 4294967296ULL, 9223372036854775807ULL, 9223372036854775808ULL, 18446744073709551615ULL, 12345678901234567890ULL};
+				ULong x = UB[c.rng.below(7)];
+				c.op(vf::fmt("%s=ULong %llu", where.c_str(), (unsigned long long)x));
+				if (c.rng.chance(0.5)) *var = x; else *var = Var(x);
+				r.t = M_NUMBER; r.d = (double)x;
+			} else if (c.rng.chance(0.5)) {
 				long x = c.rng.chance(0.5) ? SB[c.rng.below(10)] : (long)c.rng.range(-1000, 1000);
 				c.op(vf::fmt("%s=long %ld", where.c_str(), x));
 				if (c.rng.chance(0.5)) *var = x; else *var = Var(x);
